@@ -136,6 +136,8 @@ def run(ctx):
     ctx.assumptions += ["valid-model contract V1-V5", "runs that hang at shutdown (known finding F1, multi-rank variant) are compared up to the hang"]
     runlib.lean_part(ctx, "RootSim.Props.C01Sorted", THEOREMS)
     runlib.lean_part(ctx, "RootSim.Props.PrefixUnique", THEOREMS_D)
+    # glue (E): every reachable state of the abstract global Time Warp machine satisfies Hist (Props/C01Glue.lean)
+    runlib.lean_part(ctx, "RootSim.Props.C01Glue", ['RootSim.C01Glue.reachable_hist','RootSim.C01Glue.tw_equals_sequential','RootSim.C01Glue.tw_schedule_independent'])
     # ---- wire level: size-based demultiplexing (layout measured from the real headers)
     runlib.lean_part(ctx, "RootSim.Props.C02Wire", ["RootSim.C02.Wire.control_classified", "RootSim.C02.Wire.anti_classified",
                                                     "RootSim.C02.Wire.event_classified", "RootSim.C02.Wire.sizes_distinct"])
